@@ -26,6 +26,15 @@
 // with pooled transactions, every valid case end to end through a proposed
 // block, PoolTxWithData as a fourth entry, histories "pooled, then a block
 // arrives, then propose", packing across the 252/253 transaction count.
+//
+// Third round (r3_payers_test.go): pool contents in which the account that PAYS
+// a pooled transaction and the accounts that SIGNED it differ (co-signers,
+// Notary as the sender for two depositors), Conflicts attributes in both
+// directions, the payer's fees tuned onto its balance / deposit (+-1, shifted by
+// the fees of the transaction that leaves), every admission order, a block
+// (empty or carrying one of the cast) arriving in the middle; every verdict
+// against an independent predicate, every listing payable, every distinct pool
+// content proposed to a replica.
 package c07
 
 import (
@@ -169,6 +178,8 @@ type env struct {
 	mtbSetNames []string
 	r2Names     []string
 	reb         rebuiltCount
+	// third extension round (r3_payers_test.go)
+	pay payersCount
 }
 
 // scenario of a state.
@@ -207,6 +218,7 @@ func newEnv(r *vk.Run) (*env, error) {
 	tpls = append(tpls, chainx.TplByName("designate-oracle", "oracle-request")...)
 	tpls = append(tpls, extTpls()...)
 	tpls = append(tpls, e.r2Tpls()...)
+	tpls = append(tpls, e.r3Tpls()...)
 	sc, err := chainx.NewScenario(famSingle(protoExtra), 0, tpls)
 	if err != nil {
 		return nil, fmt.Errorf("preamble: %w", err)
@@ -465,7 +477,7 @@ func hexs(txs []*transaction.Transaction) []string {
 
 func TestCheck(t *testing.T) {
 	vk.UseT(t)
-	r := vk.Start("C07", "model_checking", 170*time.Second, 24*time.Minute)
+	r := vk.Start("C07", "model_checking", 230*time.Second, 24*time.Minute) // quick: ~290 CPU-s = ~25 s on 16 idle cores; the cap leaves room for a heavily shared machine
 	defer vk.CleanScratch()
 	e, err := newEnv(r)
 	if err != nil {
@@ -492,7 +504,7 @@ func TestCheck(t *testing.T) {
 		scriptCov = e.runScripts()
 	}
 	t1 := time.Now()
-	var attrBlockCov, staleCov, countCov, rebuiltCov map[string]any
+	var attrBlockCov, staleCov, countCov, rebuiltCov, payersCov map[string]any
 	if want("rebuilt") {
 		rebuiltCov = e.runRebuilt()
 	}
@@ -507,12 +519,17 @@ func TestCheck(t *testing.T) {
 	if want("count") {
 		countCov = e.runCount()
 	}
+	tp0 := time.Now()
+	if want("payers") {
+		payersCov = e.runPayers()
+	}
+	tPayers := time.Since(tp0)
 	t2 := time.Now()
 	if want("fee") {
 		feeCov = e.runFee()
 	}
 	t3 := time.Now()
-	fmt.Printf("C07 phases: sound+enc %.1fs, rebuilt %.1fs, proposable %.1fs, fee+enc %.1fs\n", t1.Sub(t0).Seconds(), t1b.Sub(t1).Seconds(), t2.Sub(t1b).Seconds(), t3.Sub(t2).Seconds())
+	fmt.Printf("C07 phases: sound+enc %.1fs, rebuilt %.1fs, proposable %.1fs (of which payers %.1fs), fee+enc %.1fs\n", t1.Sub(t0).Seconds(), t1b.Sub(t1).Seconds(), t2.Sub(t1b).Seconds(), tPayers.Seconds(), t3.Sub(t2).Seconds())
 	e.f.flush(r)
 	pprof.StopCPUProfile()
 	distinct := func(sub string) int { return len(e.outs[sub]) }
@@ -529,12 +546,16 @@ func TestCheck(t *testing.T) {
 		"rebuilt-caches": map[string]any{"cases_on_rebuilt_nodes": int(e.reb.cases.Get()), "submissions": int(e.reb.submissions.Get()), "nodes": int(e.reb.nodes.Get()), "resets": int(e.reb.resets.Get()),
 			"proposals": int(e.reb.packs.Get()), "distinct_outcomes": distinct("rebuilt"), "distinct_pack_outcomes": distinct("rebuilt-pack")},
 		"r2-states": map[string]any{"states": e.r2Names, "distinct_outcomes": distinct("r2-states")},
+		"payers": map[string]any{"boundary_variants": int(e.pay.variants.Get()), "admission_orders": int(e.pay.orders.Get()), "submissions_judged_by_predicate": int(e.pay.admissions.Get()),
+			"blocks_in_the_middle": int(e.pay.midBlocks.Get()), "blocks_in_the_middle_carrying_a_cast_tx": int(e.pay.midBlocksWithTx.Get()), "block_jobs_skipped_as_the_tx_is_unpayable": int(e.pay.midUnbuildable.Get()), "distinct_pool_contents_proposed": int(e.pay.proposals.Get()),
+			"submissions_where_only_the_payer_of_the_leaving_tx_decides": int(e.pay.creditFlips.Get()), "variants_not_buildable": int(e.pay.unbuildable.Get()),
+			"distinct_outcomes": distinct("payers"), "distinct_proposal_outcomes": distinct("payers-proposal")},
 	}
 	cov := map[string]any{
 		"extension_families":                       ext,
 		"states":                                   e.count.states.Len(),
-		"transitions":                              int(e.count.sound.Get() + e.count.fee.Get() + e.count.encVerdict.Get() + e.count.block.Get() + e.count.e2e.Get() + e.count.stale.Get() + e.count.countFam.Get() + e.reb.submissions.Get() + e.reb.packs.Get()),
-		"traces_validated_against_impl":            int(e.count.sound.Get() + e.count.fee.Get() + e.count.encVerdict.Get() + e.count.block.Get() + e.count.e2e.Get() + e.count.stale.Get() + e.count.countFam.Get() + e.reb.submissions.Get() + e.reb.packs.Get()),
+		"transitions":                              int(e.count.sound.Get() + e.count.fee.Get() + e.count.encVerdict.Get() + e.count.block.Get() + e.count.e2e.Get() + e.count.stale.Get() + e.count.countFam.Get() + e.reb.submissions.Get() + e.reb.packs.Get() + e.pay.admissions.Get() + e.pay.proposals.Get()),
+		"traces_validated_against_impl":            int(e.count.sound.Get() + e.count.fee.Get() + e.count.encVerdict.Get() + e.count.block.Get() + e.count.e2e.Get() + e.count.stale.Get() + e.count.countFam.Get() + e.reb.submissions.Get() + e.reb.packs.Get() + e.pay.admissions.Get() + e.pay.proposals.Get()),
 		"sound_submissions":                        int(e.count.sound.Get()),
 		"sound_rejections_checked_for_no_effect":   int(e.count.soundRej.Get()),
 		"fee_threshold_transactions":               int(e.count.fee.Get()),
@@ -552,6 +573,9 @@ func TestCheck(t *testing.T) {
 		"proposable_count_varint":                  countCov,
 		"proposable_count_varint_cases":            int(e.count.countFam.Get()),
 		"rebuilt_caches":                           rebuiltCov,
+		"proposable_payers":                        payersCov,
+		"proposable_payers_submissions":            int(e.pay.admissions.Get()),
+		"proposable_payers_pool_contents_proposed": int(e.pay.proposals.Get()),
 		"sound_end_to_end_blocks":                  int(e.count.e2e.Get()),
 		"sound_submissions_via_PoolTxWithData":     int(e.count.partial.Get()),
 		"sound_submissions_via_sendrawtransaction": int(e.count.rpc.Get()),
@@ -580,6 +604,7 @@ func TestCheck(t *testing.T) {
 		"rebuilt: reset kinds - the perturbing blocks change every policy value, the blocked list, the designated roles, the whitelist, deploy state and put one valid menu transaction on chain and name another one in a Conflicts attribute; Blockchain.Reset is run on a stopped node as its documentation demands, submissions go to the instance that was reset, the proposals come from that node restarted once more; the two special transactions are submitted again in a last round after the chain has grown past the removed heights",
 		"rebuilt: not driven - state jump (statesync), nodes with RemoveUntraceableBlocks/KeepOnlyLatestState; not judged - whether a BLOCK carrying an inadmissible transaction is rejected by a rebuilt node (the statement is about pool admission and proposed blocks; the proposals of rebuilt nodes must be accepted by a never-restarted replica, which is judged)",
 		"state whitelist: the witness cost of scripts that call a whitelisted method comes from a verification run on the node (as for all non-standard witnesses); what is demanded is that it is the acceptance threshold and the same on every node kind, not its absolute value",
+		"payers: balances and Notary deposits of the accounts S and R are known from the funding block of the history (checked once against the getters); the predicate for a submission to a non-empty pool is computed from GetVerifiedTransactions before the call: not pooled, shares a signer with every pooled transaction it names, network fee higher than the sum of the network fees of the pooled transactions it names or that name it and carry its author's signature, and the payer (sender, or Notary + depositor) can pay it plus what stays pooled; that the fees of the payer's OWN transactions leaving in the same admission are credited is what mempool.checkTxConflicts documents (step 3), that nobody else's are is what the proposable clause needs; error classes are counted, not demanded; whether bystanders stay pooled is not judged",
 		"not demanded (no rule in this code base, statement silent): push-only invocation scripts; well-formedness beyond what the VM loader checks for witness scripts is taken from the node's own error class only in the variants custom-*-malformed",
 	})
 }
